@@ -387,10 +387,23 @@ inductive Ev
   | commit
   | rollback
   | deleteAll
+  /-- `SegmentManager::remove_empty_segments` (run by `committed_segment_metas` whenever meta.json
+  is written): committed segments without a live document leave the register and meta.json -/
+  | removeEmpty
   | startMerge (ids : List Nat)
+  /-- explicit `IndexWriter::merge(ids)`: `make_merge_operation` always takes the last commit's
+  opstamp as target, also for UNCOMMITTED sources (no stamp is drawn) -/
+  | startMergeExplicit (ids : List Nat)
   | endMerge
 
 def inSources (ids : List Nat) (e : Entry) : Bool := ids.contains e.segId
+
+/-- the segment still holds a live document -/
+def nonEmpty (e : Entry) : Bool := !(liveDocs e.docs e.alive).isEmpty
+
+/-- mirrors: src/indexer/segment_manager.rs::remove_empty_segments (+ the meta.json written next) -/
+def removeEmpty (st : State) : State :=
+  { st with committed := st.committed.filter nonEmpty, published := st.published.filter nonEmpty }
 
 def Sys.init : Sys :=
   { st := { queue := [], committed := [], uncommitted := [], committedOpstamp := 0, published := [],
@@ -406,6 +419,7 @@ def Sys.step (s : Sys) : Ev → Sys
   | .commit => { s with st := commit s.st s.stamp, stamp := s.stamp + 1 }
   | .rollback => { s with st := rollback s.st }
   | .deleteAll => { s with st := deleteAll s.st }
+  | .removeEmpty => { s with st := removeEmpty s.st }
   | .startMerge ids =>
     match s.running with
     | some _ => s
@@ -422,10 +436,43 @@ def Sys.step (s : Sys) : Ev → Sys
             (mergeTarget true s.st.committedOpstamp s.stamp) s.nextId, s.st.epoch⟩,
           nextId := s.nextId + 1 }
       else s
+  | .startMergeExplicit ids =>
+    match s.running with
+    | some _ => s
+    | none =>
+      if ids = [] then s
+      else if containsAll s.st.uncommitted ids then
+        { s with
+          running := some ⟨ids, mergeEntries s.st.queue (s.st.uncommitted.filter (inSources ids))
+            s.st.committedOpstamp s.nextId, s.st.epoch⟩,
+          nextId := s.nextId + 1 }
+      else if containsAll s.st.committed ids then
+        { s with
+          running := some ⟨ids, mergeEntries s.st.queue (s.st.committed.filter (inSources ids))
+            s.st.committedOpstamp s.nextId, s.st.epoch⟩,
+          nextId := s.nextId + 1 }
+      else s
   | .endMerge =>
     match s.running with
     | none => s
     | some r => { s with st := endMerge s.st r, running := none }
+
+/-- the side condition under which an explicit merge of UNCOMMITTED segments is covered: after
+`advance_deletes` to the commit opstamp (which consumes nothing new) all sources sit at one
+delete-cursor position — i.e. no `delete_term` was issued between the creation of two of them.
+Without it: the recorded finding `C04:explicit-merge-uncommitted-first-cursor`. -/
+def ExplicitOk (s : Sys) : Ev → Prop
+  | .startMergeExplicit ids =>
+    s.running = none → ids ≠ [] → containsAll s.st.uncommitted ids = true →
+      ∃ c0, ∀ e ∈ s.st.uncommitted.filter (inSources ids),
+        (advance s.st.queue e s.st.committedOpstamp).cursor = c0
+  | _ => True
+
+/-- every explicit merge of uncommitted segments in the event sequence satisfies `ExplicitOk` at
+the moment it is issued -/
+def OkTrace : Sys → List Ev → Prop
+  | _, [] => True
+  | s, ev :: rest => ExplicitOk s ev ∧ OkTrace (s.step ev) rest
 
 def Sys.run (s : Sys) (evs : List Ev) : Sys := evs.foldl Sys.step s
 
@@ -444,7 +491,9 @@ def Abs.step (a : Abs) : Ev → Abs
   | .commit => { a with pub := a.pend }
   | .rollback => { a with pend := a.pub }
   | .deleteAll => { a with pend := [] }
+  | .removeEmpty => a
   | .startMerge _ => a
+  | .startMergeExplicit _ => a
   | .endMerge => a
 
 def Abs.run (a : Abs) (evs : List Ev) : Abs := evs.foldl Abs.step a
@@ -528,6 +577,22 @@ def Sys.stepG (s : Sys) : Ev → Sys
             (mergeTargetG true s.st.committedOpstamp s.stamp) s.nextId, s.st.epoch⟩,
           nextId := s.nextId + 1 }
       else s
+  | .startMergeExplicit ids =>
+    match s.running with
+    | some _ => s
+    | none =>
+      if ids = [] then s
+      else if containsAll s.st.uncommitted ids then
+        { s with
+          running := some ⟨ids, mergeEntriesG s.st.queue (s.st.uncommitted.filter (inSources ids))
+            s.st.committedOpstamp s.nextId, s.st.epoch⟩,
+          nextId := s.nextId + 1 }
+      else if containsAll s.st.committed ids then
+        { s with
+          running := some ⟨ids, mergeEntriesG s.st.queue (s.st.committed.filter (inSources ids))
+            s.st.committedOpstamp s.nextId, s.st.epoch⟩,
+          nextId := s.nextId + 1 }
+      else s
   | .endMerge =>
     match s.running with
     | none => s
@@ -555,7 +620,9 @@ inductive EvM
   | commit
   | rollback
   | deleteAll
+  | removeEmpty
   | startMerge (ids : List Nat)
+  | startMergeExplicit (ids : List Nat)
   | endMerge (i : Nat)
 
 def EvM.toEv : EvM → Ev
@@ -564,7 +631,9 @@ def EvM.toEv : EvM → Ev
   | .commit => .commit
   | .rollback => .rollback
   | .deleteAll => .deleteAll
+  | .removeEmpty => .removeEmpty
   | .startMerge ids => .startMerge ids
+  | .startMergeExplicit ids => .startMergeExplicit ids
   | .endMerge _ => .endMerge
 
 def SysM.view (s : SysM) (r : Option Running) : Sys := ⟨s.st, r, s.stamp, s.nextId⟩
@@ -581,5 +650,10 @@ def SysM.step (s : SysM) : EvM → SysM
     { st := s1.st, running := s.running ++ s1.running.toList, stamp := s1.stamp, nextId := s1.nextId }
 
 def SysM.run (s : SysM) (evs : List EvM) : SysM := evs.foldl SysM.step s
+
+/-- `OkTrace` for the machine with several merges in flight -/
+def OkTraceM : SysM → List EvM → Prop
+  | _, [] => True
+  | s, ev :: rest => ExplicitOk (s.view none) ev.toEv ∧ OkTraceM (s.step ev) rest
 
 end TantivyModel.Merge
